@@ -59,8 +59,8 @@ impl MsgHeader {
             size: if variable { 0xFFFF } else { 1216 },
             channel: *rng.pick(&[0u8, 1, 2, 8, 9, 10]),
             mtype,
-            seq: rng.u16(),
-            date: rng.range(2, 40000) as u16,
+            seq: { let f = rng.u16() as u64; rng.pooled(1, f) as u16 },
+            date: { let f = rng.range(2, 40000); (rng.pooled(2, f) % 39_999 + 2) as u16 },
             // midnight exactly and the last millisecond of the day are legal times of day
             time: match rng.below(12) {
                 0 => 0,
@@ -315,6 +315,29 @@ impl Msg31 {
         b
     }
 
+    /// Re-lay the blocks out loosely but still *frameable* in a stream: any physical order and gaps
+    /// (for instance the unused slots of a ten-slot pointer area, or alignment fill after an odd
+    /// gate count) as long as the block listed last stays physically last, which is where a stream
+    /// decoder resumes.  Blocks are reached through their pointers, never by adjacency.
+    pub fn loosen_frameable(&mut self, rng: &mut Rng) {
+        let n = self.blocks.len();
+        if n == 0 {
+            return;
+        }
+        let mut front: Vec<usize> = (0..n - 1).collect();
+        if rng.chance(1, 2) {
+            rng.shuffle(&mut front);
+        }
+        front.push(n - 1);
+        self.phys = front;
+        self.gaps = (0..n).map(|k| if k == 0 && rng.chance(1, 2) { 4 * rng.urange(1, 9) } else if rng.chance(1, 3) { rng.urange(1, 12) } else { 0 }).collect();
+    }
+
+    /// Frameable in a stream: the block listed last in the pointer table is physically last.
+    pub fn is_frameable(&self) -> bool {
+        self.blocks.is_empty() || self.phys.last() == Some(&(self.blocks.len() - 1))
+    }
+
     pub fn is_contiguous(&self) -> bool {
         self.phys.iter().enumerate().all(|(i, &p)| i == p) && self.gaps.iter().all(|&g| g == 0)
     }
@@ -396,8 +419,12 @@ pub fn gen_data_header(rng: &mut Rng, d: &mut Distinct) -> DataHeader {
 
 fn gen_data_header_plain(rng: &mut Rng, d: &mut Distinct) -> DataHeader {
     DataHeader {
-        id: [b'K', b'A' + rng.below(26) as u8, b'A' + rng.below(26) as u8, b'A' + rng.below(26) as u8],
-        time: rng.below(86_400_000) as u32,
+        id: {
+            let f = rng.below(26 * 26 * 26);
+            let v = rng.pooled(3, f) % (26 * 26 * 26);
+            [b'K', b'A' + (v / 676) as u8, b'A' + (v / 26 % 26) as u8, b'A' + (v % 26) as u8]
+        },
+        time: { let f = rng.below(86_400_000); (rng.pooled(4, f) % 86_400_000) as u32 },
         date: rng.range(2, 65535) as u16,
         az_num: d.u16(rng),
         az: d.f32(rng),
@@ -437,7 +464,7 @@ pub fn gen_vol(rng: &mut Rng, d: &mut Distinct) -> Vol {
         tx_v: d.f32(rng),
         sys_zdr: d.f32(rng),
         init_dp: d.f32(rng),
-        vcp: d.u16(rng),
+        vcp: { let f = d.u16(rng) as u64; rng.pooled(6, f) as u16 },
         processing: d.u16(rng),
         zdr_bias: d.u16(rng),
         spare: [d.u8(rng), d.u8(rng), d.u8(rng), d.u8(rng), d.u8(rng), d.u8(rng)],
@@ -697,7 +724,7 @@ pub fn gen_vcp(rng: &mut Rng, ncuts: usize) -> Vcp {
     let hdr = VcpHeader {
         size: d.u16(rng),
         pattern_type: d.u16(rng),
-        pattern_number: d.u16(rng),
+        pattern_number: { let f = d.u16(rng) as u64; rng.pooled(5, f) as u16 },
         cuts: ncuts as u16,
         version: d.u8(rng),
         clutter_group: d.u8(rng),
@@ -877,7 +904,7 @@ impl VolHeader {
     }
 
     pub fn realistic(rng: &mut Rng) -> Self {
-        let v = rng.range(1, 999);
+        let v = { let f = rng.range(1, 999); rng.pooled(7, f) % 999 + 1 };
         VolHeader {
             tape: *b"AR2V0006.",
             ext: [
@@ -885,8 +912,8 @@ impl VolHeader {
                 b'0' + (v / 10 % 10) as u8,
                 b'0' + (v % 10) as u8,
             ],
-            date: rng.range(2, 40000) as u32,
-            time: rng.below(86_400_000) as u32,
+            date: { let f = rng.range(2, 40000); (rng.pooled(8, f) % 39_999 + 2) as u32 },
+            time: { let f = rng.below(86_400_000); (rng.pooled(9, f) % 86_400_000) as u32 },
             icao: *b"KDMX",
         }
     }
